@@ -54,6 +54,36 @@ def private_members(cls):
 
 
 # ============================================================================= C16
+def bigreply_run(prop, transport, seed):
+    """A reply larger than SESSION_MSG_BYTES (100 KiB) - the boundary in internals/constants.py - and what comes after it."""
+    rng = random.Random(seed)
+    cfg = base_config(rng, "S", frag=rng.choice([0.0, 0.5]))
+    cfg.update({"transport": transport, "size": None})
+    steps = [{"op": "start"}, {"op": "idle"}, {"op": "connect", "c": 1, "w": 80}, {"op": "connect", "c": 2, "w": 80}, {"op": "idle"},
+             {"op": "line", "c": 1, "text": "start 17000"}, {"op": "idle"},
+             {"op": "line", "c": 1, "text": "stop-all"}, {"op": "idle"},
+             {"op": "line", "c": 1, "text": "num-running"}, {"op": "idle"}, {"op": "expect_number", "c": 1, "i": 2},
+             {"op": "line", "c": 1, "text": "no-such-command-tok1x3q"}, {"op": "line", "c": 2, "text": "num-running"}, {"op": "idle"},
+             {"op": "expect_number", "c": 2, "i": 0}]
+    run = {"prop": prop, "config": cfg, "steps": steps, "seed": seed, "bigreply": True,
+           "tokens": {"1:3": "tok1x3q"},
+           "final": ["bigreply"] + (["c16"] if prop == "C16" else ["sessions_clean", "reply_counts", "tokens"])}
+    return run
+
+
+def _final_bigreply(sim):
+    c = sim.clients.get(1)
+    reps = c.replies() if c else []
+    if len(reps) > 1:
+        sim.stats["probe:reply_over_session_msg_bytes"] += int(len(reps[1]) > 100 * 1024)
+    prop = sim.run["prop"]
+    if len(reps) >= 4 and "no-such-command-tok1x3q" not in reps[3]:
+        sim.violate(prop, "reply_after_big_reply", f"after a >100 KiB reply an unknown command was answered with {reps[3][:60]!r}")
+
+
+CtlSim._final_bigreply = lambda self: _final_bigreply(self)
+
+
 def c16_run(rng, stock, cls, width, transport):
     cfg = base_config(rng, cls)
     cfg["stock"] = stock
@@ -67,16 +97,26 @@ def c16_run(rng, stock, cls, width, transport):
         if rng.random() < 0.5:
             steps.append({"op": "run", "n": rng.choice([1, 3, 10])})
     steps.append({"op": "idle"})
+    if cls.endswith("x") and rng.random() < 0.5:
+        # a second server in the same process for a DIFFERENT class that has the same module and qualified name
+        steps += [{"op": "start2", "cfg": {"cls": cls, "variant": 1}}, {"op": "idle"},
+                  {"op": "connect", "c": 11, "w": width, "srv": 2}, {"op": "idle"}]
     return {"prop": "C16", "config": cfg, "steps": steps, "final": ["c16"], "help_flag": rng.choice(["-h", "--help"])}
 
 
 def _final_c16(sim):
-    cls = sim.pool_cls
+    _c16_check(sim, 1, sim.pool, sim.pool_cls)
+    if getattr(sim, "pool2", None) is not None and not sim.viol:
+        sim.stats["probe:second_server_same_qualname"] += 1
+        _c16_check(sim, 2, sim.pool2, sim.pool2_cls)
+
+
+def _c16_check(sim, srv, pool, cls):
     pub = public_members(cls)
     flag = sim.run.get("help_flag", "-h")
-    expected_name = (str(sim.pool) + "\n").encode()
+    expected_name = (str(pool) + "\n").encode()
     ok_clients = []
-    for c in sim.clients.values():
+    for c in [c for c in sim.clients.values() if c.srv == srv]:
         writes = c.server_writes()
         if not c.connected:
             sim.violate("C16", "connect_failed", f"client {c.label} could not connect: {c.connect_error!r}")
@@ -700,6 +740,9 @@ def digest_for_seed(prop, seed):
 
 def units(prop, tier, seed):
     order = itertools.count()
+    if prop in ("C16", "C18"):
+        for k, tr in enumerate(("tcp", "unix")):
+            yield ("bigreply", (tr, subseed(seed, prop, "big", k)), next(order))
     if prop == "C16":
         yield ("witness", "witness/F-C16-C16.json", next(order))
         combos = [(stock, cls, tr) for stock in (True, False) for cls in ("T", "S", "Tx", "Sx") for tr in ("tcp", "unix")]
@@ -761,6 +804,11 @@ def exec_unit(prop, unit, agg):
         sim = CtlSim(copy.deepcopy(payload["run"]), {prop}).execute()
         agg.stats["witness_replayed"] += 1
         _account(prop, sim, agg, order, "witness", True, signature=payload["signature"])
+        return
+    if kind == "bigreply":
+        tr, sd = arg
+        sim = CtlSim(bigreply_run(prop, tr, sd), {prop}).execute()
+        _account(prop, sim, agg, order, "bigreply", True)
         return
     if kind == "c16":
         stock, cls, w, tr, seed = arg
